@@ -254,6 +254,9 @@ func GenField(t *rapid.T, typ uint16, spec wm.FieldSpec, prev []wm.Field, o *Opt
 		}
 	case wm.Strs:
 		n := rapid.IntRange(1, 4).Draw(t, "ns")
+		if !pres && rapid.IntRange(0, 11).Draw(t, "nostr") == 0 {
+			n = 0 // RDLENGTH 0: the dynamic-update form of a TXT-like record
+		}
 		for i := 0; i < n; i++ {
 			f.L = append(f.L, Bytes(t, Len(t, 0, 255), o.Plain))
 		}
